@@ -8,7 +8,10 @@ use s3s_policy::pattern::PatternSet;
 
 fuzz_target!(|data: &[u8]| {
     let Ok(s) = std::str::from_utf8(data) else { return };
-    if let Ok(p) = serde_json::from_str::<Policy>(s) {
+    common::count(0);
+    let parsed = serde_json::from_str::<Policy>(s);
+    common::count(if parsed.is_ok() { 1 } else { 2 });
+    if let Ok(p) = parsed {
         let text = serde_json::to_string(&p).expect("encode");
         match serde_json::from_str::<Policy>(&text) {
             // (WildcardOneOrMore::One("*") re-decodes as Wildcard: representational alias, compare the second generation)
